@@ -620,8 +620,12 @@ func (r *Reconciler) reconcileApply(ctx context.Context, proposal *configapi.Pro
 			return controller.Result{}, nil
 		}
 
-		// If the configuration is in an old term, wait for synchronization.
-		if config.Status.Applied.Mastership.Term < config.Status.Mastership.Term {
+		configurable := &topoapi.Configurable{}
+		_ = target.GetAspect(configurable)
+
+		// If the configuration is in an old term, wait for synchronization. The configuration of a persistent
+		// target is never re-synchronized (the target keeps it), so its applied term never follows the term.
+		if !configurable.Persistent && config.Status.Applied.Mastership.Term < config.Status.Mastership.Term {
 			log.Infof("Waiting for synchronization of Configuration to target '%s'", proposal.TargetID)
 			return controller.Result{}, nil
 		}
@@ -654,9 +658,6 @@ func (r *Reconciler) reconcileApply(ctx context.Context, proposal *configapi.Pro
 			log.Warnf("Connection not found for target '%s'", proposal.TargetID)
 			return controller.Result{}, nil
 		}
-
-		configurable := &topoapi.Configurable{}
-		_ = target.GetAspect(configurable)
 
 		if configurable.ValidateCapabilities {
 			capabilityResponse, err := conn.Capabilities(ctx, &gpb.CapabilityRequest{})
